@@ -1,1 +1,4 @@
+pub mod c06;
+pub mod c14;
 pub mod hist;
+pub mod model;
